@@ -168,13 +168,12 @@ Section Measure.
   Lemma M_set_nworkers s v : M (set_nworkers s v) = M s. Proof. reflexivity. Qed.
   Lemma M_set_gens s v : M (set_gens s v) = M s. Proof. reflexivity. Qed.
   Lemma M_set_done s v : M (set_done s v) = M s. Proof. reflexivity. Qed.
-  Lemma M_set_leaked s v : M (set_leaked s v) = M s. Proof. reflexivity. Qed.
 End Measure.
 
 (* projections through the setters (all by computation) *)
 Ltac simp_proj :=
-  cbn [central rings steals wr numThreads numRings numSteal threads rz nworkers gens done leaked
-       setT set_central set_rings set_steals set_wr set_numThreads set_numRings set_numSteal set_rz set_nworkers set_gens set_done set_leaked
+  cbn [central rings steals wr numThreads numRings numSteal threads rz nworkers gens done
+       setT set_central set_rings set_steals set_wr set_numThreads set_numRings set_numSteal set_rz set_nworkers set_gens set_done
        trole pend held exec tpc pcstk lwd owed credit ringCount
        with_pend with_held with_exec with_pc with_pcstk with_lwd with_owed with_credit with_ringCount with_role] in *.
 
